@@ -82,6 +82,11 @@ class MessageManager(interfaces.TokenInterface, interfaces.MessageManager):
             cancellable.cancel()
         self._active_exchanges = None
 
+        for mid, empty_ack_timer in self._piggyback_opportunities.values():
+            # No empty ACK can be sent any more once the interface is down
+            empty_ack_timer.cancel()
+        self._piggyback_opportunities = {}
+
         await self.message_interface.shutdown()
 
     #
